@@ -3,9 +3,9 @@
   C20.TAB    every key of the four extractor tables reads the attribute named like the metric
              (X_PHASE_n -> x_per_phase[n-1]); category -> table dispatch agrees between the extractor
              lookup and the request validators.
-  C20.FAN    process_msg sends one Sample(message timestamp, extractor(message)) to every sender of
-             every (extractor, senders) pair; pairs are built from one (metric, requests) item.
-  C20.ATOM   between binding a message from the API receiver and create_task(process_msg(msg)) there
+  C20.FAN    the fan-out function sends one Sample(message timestamp, extractor(message)) to every sender
+             of every (extractor, senders) pair; pairs are built from one (metric, requests) item.
+  C20.ATOM   between binding a message from the API receiver and create_task(fan_out(msg)) there
              is no await; the fan-out task is a plain task, not owned by the cancellable stream task.
   C20.ONCE   API receivers are created only when absent and never removed or replaced; stream tasks
              are written only in _update_streams after cancelling the previous one and never
@@ -14,21 +14,46 @@
              dominates the append and the stream update with no await in between; the resampling
              actor's _subscribe tests and inserts without an await; get_or_create creates only
              when the key is absent.
+
+Roles are bound by dataflow, not by local names: the *message loop* is the `async for` of
+_handle_data_stream, the *message* its target, the *fan-out function* the closure/private method that
+is called with the message, the *pairs* variable the iterable of that function's outer loop, and so
+on.  Single-binding locals are expanded to the value they denote before anything is compared
+(`_c20_util.Expander`), guards are compared in canonical form with their polarity
+(`_c20_util.presence`, `engine.util.canon`), category dispatch is read off enumerated paths
+(`_c20_util.enum_paths`), list-building loops are folded into comprehensions
+(`_c20_util.fold_loops`) and boolean scan helpers are summarised (`scan_summary`).
 """
 from __future__ import annotations
 
 import ast
 import re
+from typing import Any
 
-from ..engine.cfg import CFG
+from ..engine.cfg import CFG, own_parts
+from ..engine.normalize import ANCHOR_NAMES, inline_helpers
 from ..engine.report import AnalysisError, Run
-from ..engine.resolver import Program, body_walk, contains_await
-from ..engine.util import canon, find_calls, method_call, node_writes, nodes_with_call, u
+from ..engine.resolver import ClassInfo, FuncInfo, Program, parent_map
+from ..engine.util import canon, node_writes, nodes_with_call, u
+from ._c20_util import (Expander, bind_call, branch, calls_where, const_bool, cpath, enum_paths, equal_fact,
+                        params_of, presence, result_expr, subst_names, walk_own)
 
 SRC = "microgrid._data_sourcing.microgrid_api_source"
 API = f"{SRC}:MicrogridApiSource"
 TABLES = {"_MeterDataMethods": "METER", "_BatteryDataMethods": "BATTERY",
           "_InverterDataMethods": "INVERTER", "_EVChargerDataMethods": "EV_CHARGER"}
+VALIDATORS = {"METER": "_check_meter_request", "BATTERY": "_check_battery_request",
+              "INVERTER": "_check_inverter_request", "EV_CHARGER": "_check_ev_charger_request"}
+API_STREAM = {"METER": "meter_data", "BATTERY": "battery_data", "INVERTER": "inverter_data",
+              "EV_CHARGER": "ev_charger_data"}
+RECV, TASKS, SUBS = "self.comp_data_receivers", "self.comp_data_tasks", "self._req_streaming_metrics"
+# ways of starting a task that nobody but the event loop owns (a TaskGroup's create_task is owned)
+INDEPENDENT_SPAWN = {"asyncio.create_task", "asyncio.ensure_future", "asyncio.get_running_loop().create_task",
+                     "asyncio.get_event_loop().create_task"}
+REMOVERS = {"pop", "clear", "popitem", "update", "setdefault", "__delitem__", "__setitem__"}
+MUTATORS = REMOVERS | {"append", "add", "insert", "extend", "remove", "discard"}
+FORBIDDEN_IN_FANOUT = (ast.Break, ast.Continue, ast.If, ast.Return, ast.IfExp, ast.While, ast.Try, ast.Match,
+                       ast.BoolOp, ast.AsyncFor)
 
 
 def expected_attr(metric: str) -> str:
@@ -36,6 +61,31 @@ def expected_attr(metric: str) -> str:
     if m:
         return f"msg.{m.group(1).lower()}_per_phase[{int(m.group(2)) - 1}]"
     return f"msg.{metric.lower()}"
+
+
+def _is_self_call(c: ast.Call, name: str | None = None) -> bool:
+    f = c.func
+    return isinstance(f, ast.Attribute) and isinstance(f.value, ast.Name) and f.value.id == "self" \
+        and (name is None or f.attr == name)
+
+
+def _spawn_name(c: ast.Call) -> str | None:
+    """`….create_task(coro, …)` / `….ensure_future(coro)`: text of the spawning function."""
+    f = c.func
+    last = f.attr if isinstance(f, ast.Attribute) else (f.id if isinstance(f, ast.Name) else "")
+    if last in ("create_task", "ensure_future") and c.args:
+        return u(f)
+    return None
+
+
+# ======================================================================================== C20.TAB
+def _category_on_path(facts: list[tuple[Any, bool]], var: str) -> set[str]:
+    out = set()
+    for f in facts:
+        x = equal_fact(f, var)
+        if x is not None and x.startswith("ComponentCategory."):
+            out.add(x.split(".")[-1])
+    return out
 
 
 def check_tab(run: Run, prog: Program) -> None:
@@ -48,11 +98,10 @@ def check_tab(run: Run, prog: Program) -> None:
         for k, v in zip(node.keys, node.values):
             n += 1
             metric = u(k).split(".")[-1]
-            ok = isinstance(v, ast.Lambda) and len(v.args.args) == 1
+            ok = isinstance(v, ast.Lambda) and len(params_of(v)) == 1
             got = ""
             if ok:
-                p = v.args.args[0].arg
-                got = u(v.body).replace(f"{p}.", "msg.", 1) if u(v.body).startswith(f"{p}.") else u(v.body)
+                got = u(subst_names(v.body, {params_of(v)[0]: ast.Name(id="msg", ctx=ast.Load())}))
                 ok = got == expected_attr(metric)
             run.check(ok, "C20.TAB", f"{SRC}:{tname}", f"{metric}: {u(v)}",
                       f"the stream for {metric} would carry `{got}` instead of `{expected_attr(metric)}`: a "
@@ -60,107 +109,295 @@ def check_tab(run: Run, prog: Program) -> None:
                       instance=f"{tname}[{metric}] reads {expected_attr(metric)}")
     if n < 50:
         raise AnalysisError(f"C20.TAB: only {n} extractor entries found")
-    # dispatch agreement
+    # dispatch agreement: on every path of the lookup that returns, exactly one category is known and
+    # the value returned is that category's table indexed by the metric parameter
     gm = prog.func(f"{API}._get_data_extraction_method")
     run.analysed(gm.qual)
-    disp = {}
-    for s in body_walk(gm.node):
-        if isinstance(s, ast.If) and isinstance(s.test, ast.Compare) and u(s.test.left) == gm.params[1]:
-            cat = u(s.test.comparators[0]).split(".")[-1]
-            for r in s.body:
-                if isinstance(r, ast.Return) and isinstance(r.value, ast.Subscript):
-                    disp[cat] = (u(r.value.value), u(r.value.slice))
-    want = {v: (k, gm.params[2]) for k, v in TABLES.items()}
-    run.check(disp == want, "C20.TAB", gm.qual, f"category -> table: {disp}",
+    cat_p, metric_p = gm.params[1], gm.params[2]
+    disp: dict[str, set[tuple[str, str]]] = {}
+    for p in enum_paths(gm.node):
+        cats = _category_on_path(p.facts, cat_p)
+        if len(cats) > 1:
+            continue  # infeasible: a category equals one enum member
+        if p.kind == "raise":
+            continue
+        key = next(iter(cats)) if cats else "<no category test>"
+        r = p.value
+        if isinstance(r, ast.Subscript):
+            disp.setdefault(key, set()).add((u(r.value), u(r.slice)))
+        else:
+            disp.setdefault(key, set()).add((u(r) if r is not None else "<falls through>", ""))
+    want = {v: {(k, metric_p)} for k, v in TABLES.items()}
+    run.check(disp == want, "C20.TAB", gm.qual, f"category -> table: { {k: sorted(v) for k, v in sorted(disp.items())} }",
               f"a component category is served from another category's extractor table (expected {want})",
               node=gm.node, file=gm.file)
-    val_tables = {}
-    for vname, cat in (("_check_meter_request", "METER"), ("_check_battery_request", "BATTERY"),
-                       ("_check_inverter_request", "INVERTER"), ("_check_ev_charger_request", "EV_CHARGER")):
+    for cat, vname in VALIDATORS.items():
         fn = prog.func(f"{API}.{vname}")
         run.analysed(fn.qual)
-        tabs = {n.id for n in ast.walk(fn.node) if isinstance(n, ast.Name) and n.id in TABLES}
-        val_tables[cat] = tabs
-        api_call = [c for c in find_calls(fn.node, lambda c: isinstance(c.func, ast.Attribute) and c.func.attr.endswith("_data"))]
-        want_api = {"METER": "meter_data", "BATTERY": "battery_data", "INVERTER": "inverter_data", "EV_CHARGER": "ev_charger_data"}[cat]
+        # the validator together with the non-anchored private helpers it calls (an extracted
+        # "open the receiver" / "validate the metrics" step still belongs to it)
+        scope = [fn.node]
+        for c in ast.walk(fn.node):
+            if isinstance(c, ast.Call) and _is_self_call(c) and c.func.attr.startswith("_") and c.func.attr not in ANCHOR_NAMES \
+                    and fn.cls is not None:  # type: ignore[union-attr]
+                h = prog.resolve_method(fn.cls, c.func.attr)  # type: ignore[union-attr]
+                if h is not None and all(h.node is not n for n in scope):
+                    scope.append(h.node)
+        tabs = {n.id for sc in scope for n in ast.walk(sc) if isinstance(n, ast.Name) and n.id in TABLES}
+        api_call = [c for sc in scope for c in calls_where(
+            sc, lambda c: isinstance(c.func, ast.Attribute) and c.func.attr.endswith("_data"), nested=False)]
+        want_api = API_STREAM[cat]
         ok = tabs == {k for k, v in TABLES.items() if v == cat} and len(api_call) == 1 and api_call[0].func.attr == want_api  # type: ignore[union-attr]
         run.check(ok, "C20.TAB", fn.qual, f"{vname}: validates against {sorted(tabs)}, opens {want_api}",
                   "a validator checks metrics against another category's table or opens another category's "
                   "API stream", node=fn.node, file=fn.file)
     cr = prog.func(f"{API}._check_requested_component_and_metrics")
     run.analysed(cr.qual)
-    d2 = {}
-    for s in ast.walk(cr.node):
-        if isinstance(s, ast.If) and isinstance(s.test, ast.Compare) and u(s.test.left) == cr.params[2]:
-            cat = u(s.test.comparators[0]).split(".")[-1]
-            calls = [c for b in s.body for c in ast.walk(b) if isinstance(c, ast.Call) and isinstance(c.func, ast.Attribute)
-                     and c.func.attr.startswith("_check_")]
-            if calls:
-                d2[cat] = calls[0].func.attr  # type: ignore[union-attr]
-    want2 = {"METER": "_check_meter_request", "BATTERY": "_check_battery_request",
-             "INVERTER": "_check_inverter_request", "EV_CHARGER": "_check_ev_charger_request"}
-    run.check(d2 == want2, "C20.TAB", cr.qual, f"category -> validator: {d2}",
+    d2: dict[str, set[str]] = {}
+    for p in enum_paths(cr.node):
+        cats = _category_on_path(p.facts, cr.params[2])
+        if len(cats) > 1:
+            continue
+        called = {c.func.attr for s in p.stmts for c in ast.walk(s)  # type: ignore[union-attr]
+                  if isinstance(c, ast.Call) and _is_self_call(c) and c.func.attr.startswith("_check_")}  # type: ignore[union-attr]
+        if called:
+            d2.setdefault(next(iter(cats)) if cats else "<no category test>", set()).update(called)
+    want2 = {k: {v} for k, v in VALIDATORS.items()}
+    run.check(d2 == want2, "C20.TAB", cr.qual, f"category -> validator: { {k: sorted(v) for k, v in sorted(d2.items())} }",
               "a category is validated by another category's validator", node=cr.node, file=cr.file)
 
 
-def check_fan(run: Run, prog: Program) -> None:
-    hs = prog.func(f"{API}._handle_data_stream")
+# ======================================================================================== roles of _handle_data_stream
+class Stream:
+    """Roles in _handle_data_stream, bound by dataflow."""
+
+    def __init__(self, prog: Program) -> None:
+        self.hs = hs = prog.func(f"{API}._handle_data_stream")
+        self.x = Expander(hs.node)
+        self.comp_p, self.cat_p = hs.params[1], hs.params[2]
+        loops = [n for n in walk_own(hs.node) if isinstance(n, ast.AsyncFor)]
+        if len(loops) != 1 or not isinstance(loops[0].target, ast.Name):
+            raise AnalysisError(f"{hs.qual}: message loop not found ({len(loops)} `async for` loops)")
+        self.loop = loops[0]
+        self.msg = self.loop.target.id
+        # the fan-out function: the nested closure or private method called with the message
+        nested = {n.name: n for n in ast.walk(hs.node) if isinstance(n, (ast.FunctionDef, ast.AsyncFunctionDef)) and n is not hs.node}
+        self.fan_calls: list[tuple[ast.Call, FuncInfo, dict[str, ast.AST]]] = []
+        for s in self.loop.body:
+            for c in [s, *walk_own(s)]:
+                if not isinstance(c, ast.Call):
+                    continue
+                target: FuncInfo | None = None
+                if isinstance(c.func, ast.Name) and c.func.id in nested:
+                    target = FuncInfo(c.func.id, hs.module, nested[c.func.id], None, hs)
+                    ps = target.params
+                elif _is_self_call(c) and hs.cls is not None:
+                    target = prog.resolve_method(hs.cls, c.func.attr)  # type: ignore[union-attr]
+                    ps = target.params[1:] if target is not None else []
+                if target is None:
+                    continue
+                b = bind_call(c, ps)
+                if b is not None and any(self.x.x(a) == self.msg for a in b.values()):
+                    self.fan_calls.append((c, target, b))
+
+
+# ======================================================================================== C20.FAN
+def _fanout_ok(st: Stream) -> tuple[bool, str, str | None]:
+    """(ok, why-not, name of the pairs variable in _handle_data_stream)."""
+    if len(st.fan_calls) != 1:
+        return False, f"{len(st.fan_calls)} calls hand the message to a closure/private method", None
+    call, pm, binding = st.fan_calls[0]
+    nested = pm.outer is not None
+    xp = Expander(pm.node, outer=st.x if nested else None)
+    msg_ps = [p for p, a in binding.items() if st.x.x(a) == st.msg]
+    if len(msg_ps) != 1:
+        return False, "message passed more than once", None
+    d = msg_ps[0]
+    if xp.unstable(d):
+        return False, "the message parameter is rebound", None
+    bad = [x for x in walk_own(pm.node) if isinstance(x, FORBIDDEN_IN_FANOUT)]
+    bad += [x for x in walk_own(pm.node) if isinstance(x, ast.comprehension) and x.ifs]
+    if bad:
+        return False, f"conditional / early exit in the fan-out ({type(bad[0]).__name__} at line {bad[0].lineno})" \
+            if hasattr(bad[0], "lineno") else "filter in the fan-out", None
+    loops = [s for s in walk_own(pm.node) if isinstance(s, ast.For)]
+    if len(loops) != 2:
+        return False, f"{len(loops)} loops instead of pairs x senders", None
+    outer, inner = (loops[0], loops[1]) if any(x is loops[1] for x in ast.walk(loops[0])) else (loops[1], loops[0])
+    if outer.orelse or inner.orelse or sum(1 for s in outer.body if s is inner) != 1:
+        return False, "the sender loop is not directly inside the pair loop", None
+    if not (isinstance(outer.target, ast.Tuple) and len(outer.target.elts) == 2
+            and all(isinstance(e, ast.Name) for e in outer.target.elts) and isinstance(inner.target, ast.Name)):
+        return False, "loop targets are not (extractor, senders) / sender", None
+    ex, sl = (e.id for e in outer.target.elts)  # type: ignore[union-attr]
+    sv = inner.target.id
+    if ex == sl or len({ex, sl, sv, d}) != 4 or any(len(xp.binds.get(v, [])) != 1 for v in (ex, sl, sv)):
+        return False, "loop variables are rebound", None
+    # the pairs iterated: a variable of _handle_data_stream (closure variable or argument)
+    it = xp.expand(outer.iter)
+    if not isinstance(it, ast.Name):
+        return False, f"pairs iterated: `{u(it)}` is not a plain variable", None
+    if nested and not xp.is_local(it.id):
+        pairs = it.id
+    elif it.id in binding and isinstance(binding[it.id], ast.Name) and not xp.unstable(it.id):
+        pairs = binding[it.id].id  # type: ignore[union-attr]
+    else:
+        return False, f"pairs iterated: `{it.id}` does not come from _handle_data_stream", None
+    if xp.x(inner.iter) != sl:
+        return False, f"the inner loop iterates `{xp.x(inner.iter)}`, not the pair's senders", None
+    for s in outer.body:
+        if s is not inner and not (isinstance(s, (ast.Assign, ast.AnnAssign)) and all(
+                isinstance(t, ast.Name) for t in (s.targets if isinstance(s, ast.Assign) else [s.target]))):
+            return False, f"statement other than a local binding in the pair loop (line {s.lineno})", None
+    # exactly one send, of Sample(msg.timestamp, Quantity(extractor(msg))), on the loop's sender
+    sends = calls_where(pm.node, lambda c: isinstance(c.func, ast.Attribute) and c.func.attr == "send", nested=True)
+    if len(sends) != 1 or not any(x is sends[0] for x in ast.walk(inner)):
+        return False, f"{len(sends)} send calls (exactly one, inside the sender loop, expected)", None
+    send = sends[0]
+    if xp.x(send.func.value) != sv or len(send.args) != 1 or send.keywords:  # type: ignore[union-attr]
+        return False, f"`{u(send)}` does not send on the loop's sender", None
+    val = xp.expand(send.args[0])
+    sb = bind_call(val, ["timestamp", "value"]) if isinstance(val, ast.Call) and u(val.func) == "Sample" else None
+    if sb is None or set(sb) != {"timestamp", "value"}:
+        return False, f"`{u(val)}` is not Sample(timestamp, value)", None
+    q = sb["value"]
+    good = u(sb["timestamp"]) == f"{d}.timestamp" and isinstance(q, ast.Call) and u(q.func) == "Quantity" \
+        and len(q.args) == 1 and not q.keywords and u(q.args[0]) == f"{ex}({d})"
+    if not good:
+        return False, f"sample is `{u(val)}`, expected Sample({d}.timestamp, Quantity({ex}({d})))", None
+    # scheduled in the one task group whose body contains the loops
+    parents = parent_map(pm.node)
+    holder = parents.get(send)
+    tgs = [w for w in walk_own(pm.node) if isinstance(w, ast.AsyncWith)]
+    if len(tgs) != 1 or len(tgs[0].items) != 1 or not isinstance(tgs[0].items[0].optional_vars, ast.Name) \
+            or not u(tgs[0].items[0].context_expr).rstrip("()").endswith("TaskGroup") \
+            or not any(x is outer for b in tgs[0].body for x in ast.walk(b)):
+        return False, "the loops are not inside exactly one `async with TaskGroup() as tg`", None
+    tg = tgs[0].items[0].optional_vars.id
+    if not (isinstance(holder, ast.Call) and isinstance(holder.func, ast.Attribute) and holder.func.attr == "create_task"
+            and holder.args and holder.args[0] is send and xp.x(holder.func.value) == tg and len(xp.binds.get(tg, [])) == 1):
+        return False, "the send is not scheduled with the task group's create_task", None
+    stmt = parents.get(holder)
+    while stmt is not None and not isinstance(stmt, ast.stmt):
+        stmt = parents.get(stmt)
+    if stmt is None or not any(stmt is s for s in inner.body) or not isinstance(stmt, (ast.Expr, ast.Assign, ast.AnnAssign)):
+        return False, "the send is not scheduled unconditionally in the sender loop", None
+    for s in inner.body:
+        if s is not stmt and not (isinstance(s, (ast.Assign, ast.AnnAssign)) and all(
+                isinstance(t, ast.Name) for t in (s.targets if isinstance(s, ast.Assign) else [s.target]))):
+            return False, f"statement other than a local binding in the sender loop (line {s.lineno})", None
+    return True, "", pairs
+
+
+def _subs_stable(cls: ClassInfo) -> bool:
+    """Per-component subscription dicts are created in place (setdefault) and never replaced/removed."""
+    for m in cls.methods.values():
+        x = Expander(m.node)
+        for n in ast.walk(m.node):
+            if isinstance(n, ast.Subscript) and isinstance(n.ctx, (ast.Store, ast.Del)) and x.x(n.value) == SUBS:
+                return False
+            if isinstance(n, ast.Attribute) and isinstance(n.ctx, (ast.Store, ast.Del)) and u(n) == SUBS and m.name != "__init__":
+                return False
+            if isinstance(n, ast.Call) and isinstance(n.func, ast.Attribute) and n.func.attr in (
+                    "pop", "clear", "popitem", "update", "__delitem__", "__setitem__") and x.x(n.func.value) == SUBS:
+                return False
+    return True
+
+
+def _metric_senders_ok(gs: FuncInfo) -> bool:
+    lc = result_expr(gs.node)
+    cat_p, req_p = gs.params[1], gs.params[2]
+    if not isinstance(lc, ast.ListComp) or len(lc.generators) != 1:
+        return False
+    g = lc.generators[0]
+    if g.ifs or g.is_async or u(g.iter) != f"{req_p}.items()" or not isinstance(lc.elt, ast.Tuple) or len(lc.elt.elts) != 2 \
+            or not (isinstance(g.target, ast.Tuple) and len(g.target.elts) == 2 and all(isinstance(e, ast.Name) for e in g.target.elts)):
+        return False
+    metric, reqs = (e.id for e in g.target.elts)  # type: ignore[union-attr]
+    ex_e, snd_e = lc.elt.elts
+    if not (isinstance(ex_e, ast.Call) and _is_self_call(ex_e, "_get_data_extraction_method")):
+        return False
+    eb = bind_call(ex_e, ["category", "metric"])
+    if eb is None or set(eb) != {"category", "metric"} or u(eb["category"]) != cat_p or u(eb["metric"]) != metric:
+        return False
+    if not isinstance(snd_e, ast.ListComp) or len(snd_e.generators) != 1:
+        return False
+    g2 = snd_e.generators[0]
+    if g2.ifs or g2.is_async or u(g2.iter) != reqs or not isinstance(g2.target, ast.Name) or g2.target.id in (metric, reqs):
+        return False
+    r = g2.target.id
+    e = snd_e.elt
+    if not (isinstance(e, ast.Call) and isinstance(e.func, ast.Attribute) and e.func.attr == "new_sender" and not e.args and not e.keywords):
+        return False
+    ch = e.func.value
+    if not (isinstance(ch, ast.Call) and u(ch.func) == "self._registry.get_or_create"):
+        return False
+    cb = bind_call(ch, ["message_type", "key"])
+    return cb is not None and "key" in cb and u(cb["key"]) == f"{r}.get_channel_name()"
+
+
+def check_fan(run: Run, prog: Program, st: Stream) -> None:
+    hs = st.hs
     run.analysed(hs.qual)
-    pm = prog.nested(hs, "process_msg")
-    loops = [s for s in ast.walk(pm.node) if isinstance(s, ast.For)]
-    ok = len(loops) == 2
-    if ok:
-        outer, inner = loops[0], loops[1]
-        ok = u(outer.iter) == "stream_senders" and isinstance(outer.target, ast.Tuple) and len(outer.target.elts) == 2 \
-            and u(inner.iter) == u(outer.target.elts[1]) and inner in outer.body and len(outer.body) == 1
-        ex, sv = u(outer.target.elts[0]), u(inner.target)
-        bad = [x for x in ast.walk(pm.node) if isinstance(x, (ast.Break, ast.Continue, ast.If, ast.Return))]
-        t = u(inner).replace(" ", "")
-        d = pm.node.args.args[0].arg
-        ok = ok and not bad and f"Sample({d}.timestamp,Quantity({ex}({d})))" in t and f"{sv}.send(sample)" in t \
-            and "tg.create_task(" in t
-    run.check(ok, "C20.FAN", pm.qual, "for extractor, senders in stream_senders: for sender in senders: send(Sample(ts, Quantity(extractor(msg))))",
+    ok, why, pairs = _fanout_ok(st)
+    where = st.fan_calls[0][1] if len(st.fan_calls) == 1 else hs
+    run.check(ok, "C20.FAN", where.qual if where is not hs else f"{hs.qual}.<locals>.process_msg",
+              "for extractor, senders in pairs: for sender in senders: send(Sample(ts, Quantity(extractor(msg))))",
               "a message is not converted with each stream's own extractor and sent to every subscribed sender "
-              "(filter / early exit / crossed extractor)", node=pm.node, file=hs.file)
-    tg = [w for w in ast.walk(pm.node) if isinstance(w, ast.AsyncWith) and "TaskGroup" in u(w.items[0].context_expr)]
-    run.check(len(tg) == 1, "C20.FAN", pm.qual, "all sends of one message awaited together (TaskGroup)",
-              "the sends of one message are not awaited before the fan-out task ends", node=pm.node, file=hs.file)
+              f"(filter / early exit / crossed extractor): {why}", node=where.node, file=hs.file)
+    pm_node = st.fan_calls[0][1].node if len(st.fan_calls) == 1 else hs.node
+    tg = [w for w in walk_own(pm_node) if isinstance(w, ast.AsyncWith) and "TaskGroup" in u(w.items[0].context_expr)]
+    run.check(len(tg) == 1 and pm_node is not hs.node, "C20.FAN", where.qual, "all sends of one message awaited together (TaskGroup)",
+              "the sends of one message are not awaited before the fan-out task ends", node=pm_node, file=hs.file)
     gs = prog.func(f"{API}._get_metric_senders")
     run.analysed(gs.qual)
-    rets = [r for r in body_walk(gs.node) if isinstance(r, ast.Return)]
-    ok = len(rets) == 1 and isinstance(rets[0].value, ast.ListComp)
-    if ok:
-        lc = rets[0].value
-        g = lc.generators[0]
-        ok = len(lc.generators) == 1 and not g.ifs and u(g.iter) == f"{gs.params[2]}.items()" and isinstance(lc.elt, ast.Tuple)
-        if ok:
-            metric, reqs = (u(e) for e in g.target.elts)  # type: ignore[union-attr]
-            ex_e, snd_e = lc.elt.elts
-            ok = u(ex_e).replace(" ", "") == f"self._get_data_extraction_method({gs.params[1]},{metric})" and \
-                isinstance(snd_e, ast.ListComp) and not snd_e.generators[0].ifs and u(snd_e.generators[0].iter) == reqs \
-                and "get_channel_name()" in u(snd_e.elt) and ".new_sender()" in u(snd_e.elt)
-    run.check(ok, "C20.FAN", gs.qual, "[(extractor(category, metric), [sender(req) for req in reqs]) for metric, reqs in requests.items()]",
+    run.check(_metric_senders_ok(gs), "C20.FAN", gs.qual,
+              "[(extractor(category, metric), [sender(req) for req in reqs]) for metric, reqs in requests.items()]",
               "extractor and senders of a pair do not come from the same (metric, requests) item, or some "
               "request gets no sender", node=gs.node, file=gs.file)
-    # the pairs used are those of this component's current requests
-    t = u(hs.node).replace(" ", "")
-    ok = "stream_senders=self._get_metric_senders(category,self._req_streaming_metrics[comp_id])" in t
+    # the pairs used are those of this component's current requests: every value the pairs variable
+    # can hold is the empty list or _get_metric_senders(category, subscriptions[comp_id])
+    ok = pairs is not None
+    built = 0
+    aliased = False
+    if pairs is not None:
+        vals = st.x.all_values(pairs)
+        for v in vals:
+            if isinstance(v, ast.List) and not v.elts:
+                continue
+            c = st.x.expand(v) if v is not None else None
+            b = bind_call(c, gs.params[1:]) if isinstance(c, ast.Call) and _is_self_call(c, "_get_metric_senders") else None
+            if b is None or set(b) != set(gs.params[1:]) or u(b[gs.params[1]]) != st.cat_p \
+                    or u(b[gs.params[2]]) != f"{SUBS}[{st.comp_p}]":
+                ok = False
+                continue
+            built += 1
+            raw = bind_call(v, gs.params[1:]) if isinstance(v, ast.Call) else None
+            aliased = aliased or raw is None or u(raw[gs.params[2]]) != f"{SUBS}[{st.comp_p}]"
+        ok = ok and built >= 1
+        if ok and aliased and hs.cls is not None and not _subs_stable(hs.cls):
+            ok = False  # an alias taken earlier may be stale once the per-component dict can be replaced
     run.check(ok, "C20.FAN", hs.qual, "stream_senders built from this component's subscriptions",
               "the fan-out does not use this component's current subscriptions", node=hs.node, file=hs.file)
 
 
-def check_atom(run: Run, prog: Program) -> None:
-    hs = prog.func(f"{API}._handle_data_stream")
+# ======================================================================================== C20.ATOM
+def check_atom(run: Run, prog: Program, st: Stream) -> None:
+    hs = st.hs
     cfg = CFG(hs.node, hs.file)
-    loops = [h for h in cfg.nodes if h.kind == "for" and u(h.ast.iter) == "api_data_receiver"]  # type: ignore[union-attr]
-    if len(loops) != 1:
-        raise AnalysisError(f"{hs.qual}: message loop not found")
-    h = loops[0]
-    dv = u(h.ast.target)  # type: ignore[union-attr]
-    hand = nodes_with_call(cfg, lambda c: u(c.func).endswith("create_task") and c.args and isinstance(c.args[0], ast.Call)
-                           and u(c.args[0].func) == "process_msg" and [u(a) for a in c.args[0].args] == [dv])
+    heads = [n for n in cfg.nodes if n.kind == "for" and n.ast is st.loop]
+    if len(heads) != 1:
+        raise AnalysisError(f"{hs.qual}: message loop not found in the CFG")
+    h = heads[0]
+    dv = st.msg
+    fan_txt = {st.x.x(c) for c, _f, _b in st.fan_calls}
+
+    def hands_over(c: ast.Call) -> bool:
+        return _spawn_name(c) is not None and st.x.x(c.args[0]) in fan_txt
+
+    hand = nodes_with_call(cfg, hands_over)
     first = [m for m, lab in cfg.succ[h.id] if lab == "iter"]
-    ok = len(hand) == 1
+    ok = len(hand) == 1 and len(st.fan_calls) == 1 and len(first) == 1
     wit = None
     if ok:
         awaits = [x for x in cfg.reachable(first, avoid=[h.id]) if cfg.is_await(x) and x != hand[0]]
@@ -174,171 +411,450 @@ def check_atom(run: Run, prog: Program) -> None:
               "an await lies between taking a message from the API receiver and handing it to its fan-out "
               "task: if a new subscription cancels the stream task at that await, the message is lost for "
               "every existing stream", node=h.ast, file=hs.file, path=cfg.describe_path(wit))
-    c = find_calls(hs.node, lambda c: u(c.func).endswith("create_task") and c.args and u(c.args[0]).startswith("process_msg("))
-    ok = len(c) == 1 and u(c[0].func) == "asyncio.create_task"
+    spawns = calls_where(hs.node, hands_over, nested=False)
+    ok = len(spawns) == 1 and _spawn_name(spawns[0]) in INDEPENDENT_SPAWN
     run.check(ok, "C20.ATOM", hs.qual, "fan-out runs as an independent task",
               "the fan-out is owned by the cancellable stream task (awaited inline or in its task group): "
               "cancelling the stream task on a new subscription would drop a message in flight",
               node=hs.node, file=hs.file)
     us = prog.func(f"{API}._update_streams")
     run.analysed(us.qual)
-    cancels = find_calls(us.node, lambda c: isinstance(c.func, ast.Attribute) and c.func.attr == "cancel")
-    ok = len(cancels) == 1 and u(cancels[0].func.value) == "self.comp_data_tasks[comp_id]"  # type: ignore[union-attr]
+    node = inline_helpers(prog, us)
+    x = Expander(node)
+    k = us.params[1]
+    cancels = calls_where(node, lambda c: isinstance(c.func, ast.Attribute) and c.func.attr == "cancel", nested=True)
+    ok = len(cancels) == 1 and x.x(cancels[0].func.value) in (f"{TASKS}[{k}]", f"{TASKS}.get({k})")  # type: ignore[union-attr]
     run.check(ok, "C20.ATOM", us.qual, "only the component's stream task is cancelled",
               "updating the streams cancels something other than the component's stream task", node=us.node, file=us.file)
 
 
-def check_once(run: Run, prog: Program) -> None:
+# ======================================================================================== C20.ONCE
+def _guarded(cfg: CFG, x: Expander, targets: list[int], key: str, cont: str, want_present: bool) -> tuple[bool, list | None, int]:
+    """Every path entry -> targets passes a membership guard of (key, cont) and the targets lie only on
+    its absent (want_present=False) / present side.  Returns (ok, witness path, number of guards)."""
+    guards: list[tuple[int, int]] = []
+    for t in cfg.nodes:
+        if t.kind == "test" and t.ast is not None:
+            p = presence(x.expand(t.ast), key, cont)
+            if p is not None:
+                guards.append((t.id, p))
+    if not guards or not targets:
+        return False, cfg.path(cfg.entry, targets) if targets else None, len(guards)
+    wit = cfg.path(cfg.entry, targets, avoid=[g for g, _ in guards])
+    ok = wit is None
+    for g, p in guards:
+        wrong_label = ("true" if p == 1 else "false") if not want_present else ("false" if p == 1 else "true")
+        wrong = cfg.reachable(branch(cfg, g, wrong_label), avoid=[g])
+        if any(t in wrong for t in targets):
+            ok = False
+            wit = wit or cfg.path(g, targets)
+    return ok, wit, len(guards)
+
+
+def _self_callers(cls: ClassInfo, name: str) -> list[tuple[FuncInfo, ast.Call]]:
+    return [(m, c) for m in cls.methods.values() for c in ast.walk(m.node)
+            if isinstance(c, ast.Call) and _is_self_call(c, name)]
+
+
+def check_once(run: Run, prog: Program, st: Stream) -> None:
     cls = prog.cls(API)
+    writers_of_recv: set[str] = set()
     n_w = 0
     for m in cls.methods.values():
+        x = Expander(m.node)
         cfg = None
-        for s in body_walk(m.node):
-            tg = []
+        for s in walk_own(m.node):
+            tg: list[ast.AST] = []
             if isinstance(s, ast.Assign):
-                tg = s.targets
+                tg = list(s.targets)
             elif isinstance(s, (ast.AugAssign, ast.AnnAssign)):
                 tg = [s.target]
             for t in tg:
-                if isinstance(t, ast.Subscript) and u(t.value) == "self.comp_data_receivers":
+                if isinstance(t, ast.Subscript) and x.x(t.value) == RECV:
                     n_w += 1
+                    writers_of_recv.add(m.name)
                     cfg = cfg or CFG(m.node, m.file)
-                    key = u(t.slice)
+                    key = x.x(t.slice)
                     node = [n.id for n in cfg.nodes if n.ast is s]
-                    guards = [x.id for x in cfg.nodes if x.kind == "test" and x.ast is not None
-                              and canon(x.ast) == ("notin", key, "self.comp_data_receivers")]
-                    wit = cfg.path(cfg.entry, node, avoid=guards)
-                    ok = bool(guards) and wit is None and all(
-                        node[0] not in cfg.reachable([mm for mm, lab in cfg.succ[g] if lab == "false"]) for g in guards)
+                    ok, wit, n_g = _guarded(cfg, x, node, key, RECV, want_present=False)
+                    if not ok and n_g == 0 and isinstance(t.slice, ast.Name) and t.slice.id in m.params[1:] \
+                            and m.name.startswith("_") and m.name not in ANCHOR_NAMES:
+                        # an extracted "open the receiver" helper: the guard may sit at its call sites
+                        sites = _self_callers(cls, m.name)
+                        refs = [a for mm in cls.methods.values() for a in ast.walk(mm.node)
+                                if isinstance(a, ast.Attribute) and a.attr == m.name]
+                        ok = bool(sites) and len(refs) == len(sites)  # never passed around as a callback
+                        for caller, c in sites:
+                            b = bind_call(c, m.params[1:])
+                            ccfg = CFG(caller.node, caller.file)
+                            cx = Expander(caller.node)
+                            cn = ccfg.node_containing(c)
+                            ok2 = b is not None and t.slice.id in b and bool(cn) and _guarded(
+                                ccfg, cx, cn, cx.x(b[t.slice.id]), RECV, want_present=False)[0]
+                            ok = ok and ok2
+                            if ok2:
+                                writers_of_recv.add(caller.name)
                     run.check(ok, "C20.ONCE", m.qual, s,
                               "an API receiver is (re)created although one exists for the component: whatever "
                               "the old receiver had buffered is lost and later messages may be duplicated",
                               node=s, file=m.file, path=cfg.describe_path(wit))
-            if isinstance(s, ast.Delete) and any("comp_data_receivers" in u(t) or "comp_data_tasks" in u(t) for t in s.targets):
+            if isinstance(s, ast.Delete) and any(RECV in x.x(t) or TASKS in x.x(t) for t in s.targets):
                 run.violation("C20.ONCE", m.qual, s, "an API receiver / stream task entry is deleted", node=s, file=m.file)
-        for c in find_calls(m.node, lambda c: isinstance(c.func, ast.Attribute) and u(c.func.value) in (
-                "self.comp_data_receivers", "self.comp_data_tasks") and c.func.attr in ("pop", "clear", "popitem", "update", "setdefault")):
-            run.violation("C20.ONCE", m.qual, c,
-                          f"`{u(c)[:60]}` removes or replaces a per-component receiver/task entry outside the "
-                          "create-once / cancel-then-replace discipline (e.g. a done-callback keyed by "
-                          "component id removes its successor's entry, leaving an un-cancelled stale task "
-                          "that steals messages)", node=c, file=m.file)
-        for node in ast.walk(m.node):
-            if isinstance(node, ast.Lambda) and ("comp_data_tasks" in u(node.body) or "comp_data_receivers" in u(node.body)) \
-                    and any(isinstance(x, ast.Call) and isinstance(x.func, ast.Attribute) and x.func.attr in ("pop", "clear")
-                            for x in ast.walk(node.body)):
-                pass  # covered by the call scan above (find_calls does not enter lambdas)
-    if n_w != 4:
-        raise AnalysisError(f"C20.ONCE: expected 4 receiver creations, found {n_w}")
-    # lambdas / nested defs too
-    for m in cls.methods.values():
-        for node in ast.walk(m.node):
-            if isinstance(node, ast.Call) and isinstance(node.func, ast.Attribute) and u(node.func.value) in (
-                    "self.comp_data_receivers", "self.comp_data_tasks") and node.func.attr in ("pop", "clear", "popitem"):
-                run.violation("C20.ONCE", m.qual, node,
-                              f"`{u(node)[:60]}` removes a per-component receiver/task entry (possibly from a "
-                              "callback): a stale, un-cancelled stream task can survive and share the API "
-                              "receiver with its successor", node=node, file=m.file)
+            if isinstance(s, ast.Attribute) and isinstance(s.ctx, (ast.Store, ast.Del)) and u(s) in (RECV, TASKS) and m.name != "__init__":
+                run.violation("C20.ONCE", m.qual, s, "the per-component receiver/task map is replaced as a whole",
+                              node=s, file=m.file)
+        # removal / replacement through a method call, also from lambdas, callbacks and nested functions
+        for c in ast.walk(m.node):
+            if isinstance(c, ast.Call) and isinstance(c.func, ast.Attribute) and c.func.attr in REMOVERS \
+                    and x.x(c.func.value) in (RECV, TASKS):
+                run.violation("C20.ONCE", m.qual, c,
+                              f"`{u(c)[:60]}` removes or replaces a per-component receiver/task entry outside the "
+                              "create-once / cancel-then-replace discipline (e.g. a done-callback keyed by "
+                              "component id removes its successor's entry, leaving an un-cancelled stale task "
+                              "that steals messages)", node=c, file=m.file)
+    if n_w < 1:
+        raise AnalysisError("C20.ONCE: no receiver creation found")
+    for cat, vname in VALIDATORS.items():
+        v = prog.func(f"{API}.{vname}")
+        reaches = vname in writers_of_recv or any(
+            _is_self_call(c) and c.func.attr in writers_of_recv for c in ast.walk(v.node) if isinstance(c, ast.Call))  # type: ignore[union-attr]
+        if not reaches:
+            raise AnalysisError(f"C20.ONCE: {vname} creates no API receiver (anchor moved?)")
+        run.ok("C20.ONCE", f"{v.qual} :: registers the receiver it opens (create-once checked at the write)")
+    # stream tasks: registered only by _update_streams (or a helper spliced into it)
+    us = prog.func(f"{API}._update_streams")
+    us_node = inline_helpers(prog, us)
     writers = []
     for m in cls.methods.values():
+        x = Expander(m.node)
         for s in ast.walk(m.node):
-            if isinstance(s, ast.Assign) and any(isinstance(t, ast.Subscript) and u(t.value) == "self.comp_data_tasks" for t in s.targets):
-                writers.append((m.name, s))
-    ok = len(writers) == 1 and writers[0][0] == "_update_streams"
+            if isinstance(s, (ast.Assign, ast.AnnAssign, ast.AugAssign)):
+                tgs = s.targets if isinstance(s, ast.Assign) else [s.target]
+                if any(isinstance(t, ast.Subscript) and x.x(t.value) == TASKS for t in tgs):
+                    writers.append((m.name, s))
+    ok = bool(writers)
+    for name, _s in writers:
+        if name == "_update_streams":
+            continue
+        sites = _self_callers(cls, name)
+        spliced = name not in ANCHOR_NAMES and bool(sites) and all(c.name == "_update_streams" for c, _ in sites) \
+            and not any(isinstance(c, ast.Call) and _is_self_call(c, name) for c in ast.walk(us_node))
+        ok = ok and spliced
     run.check(ok, "C20.ONCE", f"{API}._update_streams", "comp_data_tasks[comp_id] written only in _update_streams",
               "stream tasks are registered elsewhere", node=writers[0][1] if writers else None,
               file=prog.module(SRC).rel)
-    us = prog.func(f"{API}._update_streams")
-    cfg = CFG(us.node, us.file)
-    wr = [n.id for n in cfg.nodes if n.kind == "stmt" and any(u(w) == "self.comp_data_tasks[comp_id]" for w in node_writes(cfg, n.id))]
+    cfg = CFG(us_node, us.file)
+    x = Expander(us_node)
+    k, cat_p = us.params[1], us.params[2]
+    wr = [n.id for n in cfg.nodes if n.kind == "stmt" and any(
+        isinstance(w, ast.Subscript) and x.x(w.value) == TASKS and x.x(w.slice) == k for w in node_writes(cfg, n.id))]
     cn = nodes_with_call(cfg, lambda c: isinstance(c.func, ast.Attribute) and c.func.attr == "cancel")
-    t = [x for x in cfg.nodes if x.kind == "test" and x.ast is not None and canon(x.ast) == ("in", "comp_id", "self.comp_data_tasks")]
-    ok = len(wr) == 1 and len(cn) == 1 and len(t) == 1 and [m for m, lab in cfg.succ[t[0].id] if lab == "true"] == cn \
-        and cfg.path(cfg.entry, wr, avoid=[t[0].id]) is None
+    wr_any = [n.id for n in cfg.nodes if any(
+        isinstance(w, ast.Subscript) and x.x(w.value) == TASKS for w in node_writes(cfg, n.id))]
+    ok = len(wr) == 1 and wr_any == wr and len(cn) == 1
+    if ok:
+        g_ok, _w, n_g = _guarded(cfg, x, cn, k, TASKS, want_present=True)
+        ok = g_ok and n_g == 1
+        guard = [t.id for t in cfg.nodes if t.kind == "test" and t.ast is not None and presence(x.expand(t.ast), k, TASKS) is not None]
+        if ok:
+            p = presence(x.expand(cfg.nodes[guard[0]].ast), k, TASKS)  # type: ignore[arg-type]
+            present = branch(cfg, guard[0], "true" if p == 1 else "false")
+            # every registration passes the guard, and on its present side the cancel comes first
+            ok = cfg.path(cfg.entry, wr, avoid=guard) is None and all(
+                s in cn or cfg.path(s, wr, avoid=cn) is None for s in present)
     run.check(ok, "C20.ONCE", us.qual, "cancel the previous stream task (if any), then register the new one",
               "a new stream task is registered without cancelling the previous one for that component",
               node=us.node, file=us.file)
     s = cfg.nodes[wr[0]].ast if wr else None
-    ok = isinstance(s, ast.Assign) and u(s.value).replace(" ", "") == "asyncio.create_task(run_forever(lambda:self._handle_data_stream(comp_id,category)))"
+    ok = False
+    if isinstance(s, (ast.Assign, ast.AnnAssign)) and s.value is not None:
+        v = x.expand(s.value)
+        if isinstance(v, ast.Call) and _spawn_name(v) in INDEPENDENT_SPAWN and len(v.args) == 1 \
+                and all(kw.arg == "name" for kw in v.keywords):
+            rf = v.args[0]
+            if isinstance(rf, ast.Call) and u(rf.func) == "run_forever" and len(rf.args) == 1 and not rf.keywords:
+                f = rf.args[0]
+                inner: ast.Call | None = None
+                if isinstance(f, ast.Lambda) and not params_of(f) and isinstance(f.body, ast.Call):
+                    inner = f.body
+                elif isinstance(f, ast.Call) and u(f.func) in ("partial", "functools.partial") and f.args:
+                    inner = ast.Call(func=f.args[0], args=f.args[1:], keywords=f.keywords)
+                if inner is not None and _is_self_call(inner, "_handle_data_stream"):
+                    b = bind_call(inner, st.hs.params[1:])
+                    ok = b is not None and set(b) == set(st.hs.params[1:]) and u(b[st.comp_p]) == k and u(b[st.cat_p]) == cat_p
     run.check(ok, "C20.ONCE", us.qual, "new task = run_forever(_handle_data_stream(comp_id, category))",
               "the registered task does not stream this component", node=us.node, file=us.file)
     cr = prog.func(f"{API}._check_requested_component_and_metrics")
-    first = [s for s in cr.node.body if not (isinstance(s, ast.Expr) and isinstance(s.value, ast.Constant))][0]
-    ok = isinstance(first, ast.If) and canon(first.test) == ("in", cr.params[1], "self.comp_data_receivers") and \
-        isinstance(first.body[0], ast.Return)
+    cfg = CFG(cr.node, cr.file)
+    x = Expander(cr.node)
+    openers = nodes_with_call(cfg, lambda c: _is_self_call(c) and c.func.attr in VALIDATORS.values())  # type: ignore[union-attr]
+    ok = bool(openers) and _guarded(cfg, x, openers, cr.params[1], RECV, want_present=False)[0]
     run.check(ok, "C20.ONCE", cr.qual, "existing receiver -> nothing to (re)create",
               "validation re-runs receiver creation for a component that already has one", node=cr.node, file=cr.file)
-    hs = prog.func(f"{API}._handle_data_stream")
-    ok = "api_data_receiver:Receiver[Any]=self.comp_data_receivers[comp_id]" in u(hs.node).replace(" ", "")
+    hs = st.hs
+    ok = st.x.x(st.loop.iter) == f"{RECV}[{st.comp_p}]"
     run.check(ok, "C20.ONCE", hs.qual, "the (re)started stream task continues the cached receiver",
               "a restarted stream task does not continue the component's cached API receiver", node=hs.node, file=hs.file)
 
 
+# ======================================================================================== C20.DEDUP
+def _strip_not(e: ast.AST) -> tuple[ast.AST, bool]:
+    neg = False
+    while isinstance(e, ast.UnaryOp) and isinstance(e.op, ast.Not):
+        e, neg = e.operand, not neg
+    return e, neg
+
+
+def _same_channel(test: ast.AST, a: str, b: str) -> str | None:
+    """'eq' / 'ne' when the (expanded) test compares the channel names of `a` and `b`."""
+    c = canon(test)
+    names = frozenset({f"{a}.get_channel_name()", f"{b}.get_channel_name()"})
+    if len(names) == 2 and c == ("==", names):
+        return "eq"
+    if len(names) == 2 and c == ("!=", names):
+        return "ne"
+    return None
+
+
+def _any_scan(e: ast.AST, req: str) -> tuple[tuple[str, ...], bool] | None:
+    """`[not] any(x.get_channel_name() == req.get_channel_name() for x in LIST)` -> (slot path of LIST, value when a duplicate exists)."""
+    e, neg = _strip_not(e)
+    if not (isinstance(e, ast.Call) and isinstance(e.func, ast.Name) and e.func.id == "any" and len(e.args) == 1 and not e.keywords):
+        return None
+    g = e.args[0]
+    if not isinstance(g, (ast.GeneratorExp, ast.ListComp)) or len(g.generators) != 1:
+        return None
+    gen = g.generators[0]
+    if gen.ifs or gen.is_async or not isinstance(gen.target, ast.Name) or _same_channel(g.elt, gen.target.id, req) != "eq":
+        return None
+    p = cpath(gen.iter)
+    return (p, not neg) if p is not None else None
+
+
+class Scan:
+    def __init__(self, gate: int, dup_from: list[int], path: tuple[str, ...], body_from: list[int], kind: str) -> None:
+        self.gate, self.dup_from, self.path, self.body_from, self.kind = gate, dup_from, path, body_from, kind
+
+
+def scan_summary(h: FuncInfo, req_param: str) -> tuple[tuple[str, ...], bool] | None:
+    """A synchronous helper that decides `a request with the same channel name is in LIST`:
+    (slot path of LIST in the helper's own terms, truth value returned when a duplicate exists)."""
+    if not isinstance(h.node, ast.FunctionDef):
+        return None
+    x = Expander(h.node)
+    if x.unstable(req_param):
+        return None
+    cfg = CFG(h.node, h.file)
+    rets = [n for n in cfg.nodes if n.kind == "stmt" and isinstance(n.ast, ast.Return)]
+    if len(rets) == 1 and rets[0].ast.value is not None and not [n for n in cfg.nodes if n.kind in ("for", "while")]:  # type: ignore[union-attr]
+        r = _any_scan(x.expand(rets[0].ast.value), req_param)  # type: ignore[union-attr]
+        if r is not None and cfg.path(cfg.entry, [cfg.exit], avoid=[rets[0].id]) is None:
+            return r
+    scans = _find_scans(cfg, x, req_param, helpers=None)
+    if len(scans) != 1 or scans[0].kind != "loop":
+        return None
+    sc = scans[0]
+    normal = lambda a, b, lab: not lab.startswith("exc:")  # noqa: E731
+    if cfg.path(cfg.entry, [cfg.exit], avoid=[sc.gate], edge_ok=normal) is not None:
+        return None  # the scan can be skipped
+
+    def outcomes(srcs: list[int], avoid: list[int]) -> set[bool | None]:
+        out: set[bool | None] = set()
+        region = cfg.reachable(srcs, avoid=avoid, edge_ok=normal)
+        for n in region:
+            for m, lab in cfg.succ[n]:
+                if m == cfg.exit and not lab.startswith("exc:"):
+                    a = cfg.nodes[n].ast
+                    if isinstance(a, ast.Return):
+                        out.add(const_bool(x.expand(a.value)) if a.value is not None else False)
+                    else:
+                        out.add(False)  # falls off the end: None
+        return out
+
+    dup = outcomes(sc.dup_from, [sc.gate])
+    done = outcomes(branch(cfg, sc.gate, "done"), [])
+    # leaving the loop body other than through the match or back to the header is not a complete scan
+    non_dup = cfg.reachable(sc.body_from, avoid=[sc.gate, *sc.dup_from], edge_ok=normal)
+    if cfg.exit in non_dup or not sc.dup_from or len(dup) != 1 or len(done) != 1 or None in dup or None in done or dup == done:
+        return None
+    return sc.path, next(iter(dup))  # type: ignore[return-value]
+
+
+def _find_scans(cfg: CFG, x: Expander, req: str, helpers: tuple[Program, FuncInfo] | None) -> list[Scan]:
+    out: list[Scan] = []
+    for n in cfg.nodes:
+        if n.kind == "for" and isinstance(n.ast, ast.For) and isinstance(n.ast.target, ast.Name):
+            p = cpath(x.expand(n.ast.iter))
+            if p is None or p[0] != SUBS:
+                continue
+            ev = n.ast.target.id
+            body_from = branch(cfg, n.id, "iter")
+            inside = cfg.reachable(body_from, avoid=[n.id])
+            for t in cfg.nodes:
+                if t.kind == "test" and t.id in inside and t.ast is not None:
+                    k = _same_channel(x.expand(t.ast), ev, req)
+                    if k is not None:
+                        out.append(Scan(n.id, branch(cfg, t.id, "true" if k == "eq" else "false"), p, body_from, "loop"))
+        elif n.kind == "test" and n.ast is not None:
+            e = x.expand(n.ast)
+            r = _any_scan(e, req)
+            if r is not None and r[0][0] == SUBS:
+                out.append(Scan(n.id, branch(cfg, n.id, "true" if r[1] else "false"), r[0], [], "any"))
+                continue
+            if helpers is None:
+                continue
+            prog, fn = helpers
+            call, neg = _strip_not(e)
+            if not isinstance(call, ast.Call):
+                continue
+            target: FuncInfo | None = None
+            ps: list[str] = []
+            if _is_self_call(call) and fn.cls is not None:
+                target = prog.resolve_method(fn.cls, call.func.attr)  # type: ignore[union-attr]
+                ps = target.params[1:] if target is not None else []
+            elif isinstance(call.func, ast.Name) and call.func.id in fn.module.functions:
+                target = fn.module.functions[call.func.id]
+                ps = target.params
+            if target is None:
+                continue
+            b = bind_call(call, ps)
+            if b is None:
+                continue
+            rp = [p for p, a in b.items() if u(a) == req]
+            if len(rp) != 1:
+                continue
+            summ = scan_summary(target, rp[0])
+            if summ is None:
+                continue
+            # the helper's slot path in the caller's terms
+            path = tuple(u(subst_names(ast.parse(part, mode="eval").body, b)) for part in summ[0])
+            if path[0] != SUBS:
+                continue
+            out.append(Scan(n.id, branch(cfg, n.id, "true" if summ[1] != neg else "false"), path, [], "helper"))
+    return out
+
+
+def _spliced(prog: Program, fn: FuncInfo) -> FuncInfo:
+    """The function with its simple private helpers spliced in (engine normaliser; analysis-only copy)."""
+    node = inline_helpers(prog, fn, exclude=("_get_component_category",))
+    return FuncInfo(fn.name, fn.module, node, fn.cls, fn.outer)
+
+
+def _rooted_at_self(text: str) -> bool:
+    return text == "self" or text.startswith("self.") or text.startswith("self[")
+
+
 def check_dedup(run: Run, prog: Program) -> None:
-    am = prog.func(f"{API}.add_metric")
+    am = _spliced(prog, prog.func(f"{API}.add_metric"))
     run.analysed(am.qual)
     cfg = CFG(am.node, am.file)
+    x = Expander(am.node)
     req = am.params[1]
-    unk = [t for t in cfg.nodes if t.kind == "test" and t.ast is not None and canon(t.ast) == ("is", frozenset({"category", "None"}))]
-    muts = [n.id for n in cfg.nodes if n.kind == "stmt" and n.ast is not None and (
-        "setdefault(" in u(n.ast) or ".append(" in u(n.ast) or "_update_streams" in u(n.ast))]
-    ok = len(unk) == 1 and cfg.path(cfg.entry, muts, avoid=[unk[0].id]) is None and not any(
-        m in cfg.reachable([x for x, lab in cfg.succ[unk[0].id] if lab == "true"]) for m in muts)
+    # unknown component: the value awaited from _get_component_category is None
+    unk: list[tuple[int, str]] = []
+    for t in cfg.nodes:
+        if t.kind == "test" and t.ast is not None:
+            c = canon(x.expand(t.ast))
+            if isinstance(c, tuple) and c[0] in ("is", "isnot") and isinstance(c[1], frozenset) and "None" in c[1] and len(c[1]) == 2:
+                other = next(iter(c[1] - {"None"}))
+                if other.startswith("await self._get_component_category("):
+                    unk.append((t.id, "true" if c[0] == "is" else "false"))
+
+    def mutates(nid: int) -> bool:
+        n = cfg.nodes[nid]
+        if n.ast is None or n.kind == "handler":
+            return False
+        for part in own_parts(n):
+            for c in [part, *walk_own(part)]:
+                if isinstance(c, ast.Call) and isinstance(c.func, ast.Attribute):
+                    if _is_self_call(c) and c.func.attr != "_get_component_category":
+                        return True
+                    if c.func.attr in MUTATORS and _rooted_at_self(x.x(c.func.value)):
+                        return True
+        return any(isinstance(w, (ast.Subscript, ast.Attribute)) and _rooted_at_self(x.x(w)) for w in node_writes(cfg, nid))
+
+    muts = [n.id for n in cfg.nodes if mutates(n.id)]
+    ok = len(unk) == 1 and bool(muts) and cfg.path(cfg.entry, muts, avoid=[unk[0][0]]) is None and not any(
+        m in cfg.reachable(branch(cfg, unk[0][0], unk[0][1])) for m in muts)
     run.check(ok, "C20.DEDUP", am.qual, "unknown component -> return before any state change",
               "a request for an unknown component changes the subscription state", node=am.node, file=am.file)
     apps = nodes_with_call(cfg, lambda c: isinstance(c.func, ast.Attribute) and c.func.attr == "append")
-    upd = [x for x in nodes_with_call(cfg, lambda c: method_call(c, "self", "_update_streams")) if cfg.is_await(x)]
-    scan_loops = [h for h in cfg.nodes if h.kind == "for" and "_req_streaming_metrics" in h.label]
-    ev = u(scan_loops[0].ast.target) if scan_loops else "?"  # type: ignore[union-attr]
-    scans = [t for t in cfg.nodes if t.kind == "test" and t.ast is not None and canon(t.ast) == (
-        "==", frozenset({f"{ev}.get_channel_name()", f"{req}.get_channel_name()"}))]
+    upd = [n for n in nodes_with_call(cfg, lambda c: _is_self_call(c, "_update_streams")) if cfg.is_await(n)]
+    scans = _find_scans(cfg, x, req, helpers=(prog, am))
     ok = len(apps) == 1 and len(upd) == 1 and len(scans) == 1
     wit = None
     if ok:
-        loops = scan_loops
-        ok = len(loops) == 1 and cfg.path(cfg.entry, apps, avoid=[loops[0].id]) is None
-        dup_side = cfg.reachable([m for m, lab in cfg.succ[scans[0].id] if lab == "true"], avoid=[loops[0].id])
-        ok = ok and apps[0] not in dup_side and upd[0] not in dup_side and cfg.exit in dup_side
-        between = cfg.reachable([loops[0].id], avoid=apps)
-        aw = [x for x in between if cfg.is_await(x) and cfg.path(x, apps) is not None and x != upd[0]]
+        sc = scans[0]
+        # every way to the append runs the whole scan; a match leads out without append / stream update
+        ok = cfg.path(cfg.entry, apps, avoid=[sc.gate]) is None and all(
+            cfg.path(b, apps, avoid=[sc.gate]) is None for b in sc.body_from)
+        dup_side = cfg.reachable(sc.dup_from, avoid=[sc.gate] if sc.kind == "loop" else [])
+        ok = ok and bool(sc.dup_from) and apps[0] not in dup_side and upd[0] not in dup_side and cfg.exit in dup_side
+        between = cfg.reachable([sc.gate], avoid=apps)
+        aw = [n for n in between if cfg.is_await(n) and cfg.path(n, apps) is not None and n != upd[0]]
         ok = ok and not aw
         wit = cfg.path(aw[0], apps) if aw else None
         if ok:
-            # same list scanned and appended to
-            a = find_calls(cfg.nodes[apps[0]].ast, lambda c: isinstance(c.func, ast.Attribute) and c.func.attr == "append")[0]  # type: ignore[arg-type]
-            ok = u(a.func.value) == u(loops[0].ast.iter) and [u(x) for x in a.args] == [req]  # type: ignore[union-attr]
+            # same list scanned and appended to, and it is this request that is appended
+            a = [c for part in own_parts(cfg.nodes[apps[0]]) for c in [part, *walk_own(part)]
+                 if isinstance(c, ast.Call) and isinstance(c.func, ast.Attribute) and c.func.attr == "append"]
+            ok = len(a) == 1 and cpath(x.expand(a[0].func.value)) == sc.path and len(sc.path) == 3 \
+                and [x.x(v) for v in a[0].args] == [req] and not a[0].keywords  # type: ignore[union-attr]
         ok = ok and cfg.path(apps[0], upd) is not None and cfg.path(cfg.entry, upd, avoid=apps) is None
     run.check(ok, "C20.DEDUP", am.qual, "scan for the same channel name, then append, then update streams",
               "an identical request is not ignored, or the scan-and-append is interruptible (an await between "
               "scan and append lets two identical requests both be appended)", node=am.node, file=am.file,
               path=cfg.describe_path(wit))
-    sub = prog.func("microgrid._resampling:ComponentMetricsResamplingActor._subscribe")
+    sub = _spliced(prog, prog.func("microgrid._resampling:ComponentMetricsResamplingActor._subscribe"))
     run.analysed(sub.qual)
     cfg = CFG(sub.node, sub.file)
-    t = [x for x in cfg.nodes if x.kind == "test" and x.ast is not None and canon(x.ast) == ("in", "request_channel_name", "self._active_req_channels")]
-    adds = nodes_with_call(cfg, lambda c: method_call(c, "self._active_req_channels", "add"))
-    ok = len(t) == 1 and len(adds) == 1
+    x = Expander(sub.node)
+    key = f"{sub.params[1]}.get_channel_name()"
+    active = "self._active_req_channels"
+    adds = nodes_with_call(cfg, lambda c: isinstance(c.func, ast.Attribute) and c.func.attr == "add"
+                           and x.x(c.func.value) == active and [x.x(a) for a in c.args] == [key])
+    all_adds = nodes_with_call(cfg, lambda c: isinstance(c.func, ast.Attribute) and c.func.attr in ("add", "update")
+                               and x.x(c.func.value) == active)
+    ok = len(adds) == 1 and all_adds == adds
     if ok:
+        g_ok, _w, n_g = _guarded(cfg, x, adds, key, active, want_present=False)
         region = cfg.reachable([cfg.entry], avoid=adds)
-        aw = [x for x in region if cfg.is_await(x)]
-        ok = not aw and cfg.path(cfg.entry, adds, avoid=[t[0].id]) is None and \
-            adds[0] not in cfg.reachable([m for m, lab in cfg.succ[t[0].id] if lab == "true"])
+        aw = [n for n in region if cfg.is_await(n)]
+        ok = g_ok and n_g == 1 and not aw
     run.check(ok, "C20.DEDUP", sub.qual, "test-and-insert of the request channel name without an await",
               "the resampling actor can subscribe the same request twice (await between test and insert)",
               node=sub.node, file=sub.file)
-    gc = prog.func("_internal._channels:ChannelRegistry.get_or_create")
+    gc = _spliced(prog, prog.func("_internal._channels:ChannelRegistry.get_or_create"))
     run.analysed(gc.qual)
     cfg = CFG(gc.node, gc.file)
-    wr = [n.id for n in cfg.nodes if n.kind == "stmt" and any(u(w) == f"self._channels[{gc.params[2]}]" for w in node_writes(cfg, n.id))]
-    g = [x.id for x in cfg.nodes if x.kind == "test" and x.ast is not None and canon(x.ast) == ("notin", gc.params[2], "self._channels")]
-    ok = len(wr) == 1 and len(g) == 1 and cfg.path(cfg.entry, wr, avoid=g) is None and \
-        wr[0] not in cfg.reachable([m for m, lab in cfg.succ[g[0]] if lab == "false"])
+    x = Expander(gc.node)
+    kp = gc.params[2]
+    wr = [n.id for n in cfg.nodes if n.kind == "stmt" and any(
+        isinstance(w, ast.Subscript) and x.x(w.value) == "self._channels" for w in node_writes(cfg, n.id))]
+    wr_k = [n for n in wr if any(isinstance(w, ast.Subscript) and x.x(w.slice) == kp for w in node_writes(cfg, n))]
+    ok = len(wr) == 1 and wr_k == wr and not x.unstable(kp)
+    if ok:
+        g_ok, _w, n_g = _guarded(cfg, x, wr, kp, "self._channels", want_present=False)
+        ok = g_ok and n_g == 1
     run.check(ok, "C20.DEDUP", gc.qual, "create only when the key is absent",
               "get_or_create can replace an existing channel (its subscribers would stop receiving)",
               node=gc.node, file=gc.file)
     ds = prog.func("microgrid._data_sourcing.data_sourcing:DataSourcingActor._run")
     run.analysed(ds.qual)
-    ok = "asyncforrequestinself._request_receiver:awaitself._microgrid_api_source.add_metric(request)" in u(ds.node).replace(" ", "").replace("\n", "")
+    x = Expander(ds.node)
+    parents = parent_map(ds.node)
+    loops = [n for n in walk_own(ds.node) if isinstance(n, ast.AsyncFor) and x.x(n.iter) == "self._request_receiver"]
+    calls = calls_where(ds.node, lambda c: isinstance(c.func, ast.Attribute) and c.func.attr == "add_metric", nested=True)
+    ok = len(loops) == 1 and len(calls) == 1 and isinstance(loops[0].target, ast.Name)
+    if ok:
+        c = calls[0]
+        aw = parents.get(c)
+        stmt = parents.get(aw) if aw is not None else None
+        ok = isinstance(aw, ast.Await) and isinstance(stmt, ast.Expr) and any(stmt is s for s in loops[0].body) \
+            and x.x(c.func.value) == "self._microgrid_api_source" and [x.x(a) for a in c.args] == [loops[0].target.id] \
+            and not c.keywords and not loops[0].orelse and not any(  # type: ignore[union-attr]
+                isinstance(n, (ast.If, ast.Break, ast.Continue, ast.Return, ast.Try, ast.While, ast.For, ast.AsyncFor, ast.IfExp,
+                               ast.Match, ast.With, ast.AsyncWith)) for b in loops[0].body for n in [b, *walk_own(b)])
     run.check(ok, "C20.DEDUP", ds.qual, "requests handled one at a time, in order",
               "subscription requests are not processed sequentially", node=ds.node, file=ds.file)
 
@@ -370,9 +886,10 @@ CONTROLS = [
 
 def run_rules(run: Run, prog: Program) -> None:
     check_tab(run, prog)
-    check_fan(run, prog)
-    check_atom(run, prog)
-    check_once(run, prog)
+    st = Stream(prog)
+    check_fan(run, prog, st)
+    check_atom(run, prog, st)
+    check_once(run, prog, st)
     check_dedup(run, prog)
 
 
@@ -396,5 +913,7 @@ def check(run: Run, prog: Program, tier: str) -> str:
     run.undecided("relative order of the fan-out tasks of consecutive messages (event-loop scheduling); "
                   "behaviour on receiver overflow")
     return ("Table extraction with a naming rule (metric id -> message field), sibling agreement of the "
-            "category dispatch, never-between (await) rules on the message hand-over and the duplicate "
-            "scan, who-may-write rules on the per-component receiver/task maps.")
+            "category dispatch read off enumerated paths, never-between (await) rules on the message "
+            "hand-over and the duplicate scan, who-may-write rules on the per-component receiver/task maps; "
+            "roles bound by dataflow (locals expanded to the values they denote, guards compared by "
+            "canonical form and polarity, helpers spliced or summarised).")
